@@ -217,6 +217,37 @@ def run(ctx):
             if n not in LINE_SPLITTERS:
                 continue
             chan += 1
+            # producer: the text that is split must be the input as read (no trim / replace / case mapping on the way, also not inside a helper that reads it)
+            rewriting = []
+
+            def walk_pruned(o):
+                # sub-terms of o, not descending into the arguments of a reader (the content read does not derive from the path text)
+                yield o
+                if o[0] == "call" and re.search(r"^std::fs::read\w*$|^std::fs::File::open$|std::io::Read::read\w*$", o[1]):
+                    return
+                for ch in o[1:]:
+                    if isinstance(ch, tuple):
+                        yield from walk_pruned(ch)
+                    elif isinstance(ch, list):
+                        for y in ch:
+                            if isinstance(y, tuple):
+                                yield from walk_pruned(y)
+
+            def producers(o, cr_, depth=0):
+                for x in walk_pruned(o):
+                    if x[0] != "call":
+                        continue
+                    if re.search(r"<impl str>::(?:trim\w*|replace\w*|to_lowercase|to_uppercase|to_ascii_\w+|strip_\w+|split_at\w*|get)$|String::(?:truncate|pop|remove|retain|drain)$", x[1]):
+                        rewriting.append(x[1])
+                    hb = cr_.body(x[1])
+                    if hb is not None and depth < 3 and not hb.derived:
+                        producers(local.Defs(hb).local(0), cr_, depth + 1)
+            if t["args"]:
+                producers(dd.operand(t["args"][0]), cr)
+            if rewriting:
+                ctx.violation("CLI-3", (b.path, "input rewritten before splitting: " + rewriting[0].rsplit("::", 1)[-1]),
+                              "the text of this channel passes through %s before it is split into lines: the first/last test case loses characters that the same test case keeps "
+                              "when given as an argument or through another channel" % rewriting[0], b.loc(t.get("line")))
             # consumer chain: collect(map(lines, closure)) / collect::<Result<..>>(lines)
             users = []
             for bj, t2 in b.calls():
@@ -255,7 +286,8 @@ def run(ctx):
                 ctx.violation("CLI-3", (b.path, n), "input is split by %s: channels would disagree on line endings" % n, b.loc(t.get("line")))
     ctx.floor("CLI-3", "line-splitting channels (stdin, -f, from_file)", chan, 3)
     # argument channel: Ok(cli.input.clone())
-    oi_b = [b for b in bin_.bodies if b.kind == "fn" and any((callee_name(t) or "") == "std::io::stdin" for _, t in b.calls())]
+    oi_b = [b for b in bin_.bodies if b.kind == "fn" and any("Cli" in ty for ty in b.sig_inputs) and "Vec<std::string::String>" in (b.sig_output or "")
+            and len(b.sig_inputs) == 1]
     for b in oi_b:
         dd = local.Defs(b)
         found = False
